@@ -1,5 +1,5 @@
 SPECIFICATION Spec
-CONSTANTS NG = 3 Rounds = 2 Modes = {"w", "r"} LeakOnCancel = FALSE
+CONSTANTS NG = 3 Rounds = 2 Modes = {"w"} LeakOnCancel = FALSE DeafWaiter = FALSE
 INVARIANTS Contract TokenInv RWNeverBlocks
 PROPERTY AllFinish
 CHECK_DEADLOCK FALSE
